@@ -47,6 +47,11 @@ where
     let mut header = [0u8; SNA_HEADER_SIZE];
     asset.read_exact(&mut header)?;
 
+    // Only interrupt modes 0, 1 and 2 exist
+    if header[25] & SNA_INTERRUPT_MODE_MASK > 2 {
+        return Err(SnapshotLoadError::InvalidSNAFile.into());
+    }
+
     // State of the interrupted instruction stream does not belong to the loaded machine
     emulator.cpu.reset_execution_state();
 
